@@ -72,7 +72,7 @@ def gen_corpus(rng, n):
         if i % 2 == 0:
             corpus.append({"kind": "py", "script": prog.Gen(rng, profile="py").script()})
         else:
-            g = ftn.FGen(rng, memory_bias=True, two_types=rng.random() < 0.5, max_ops=12, neq=True)
+            g = ftn.FGen(rng, memory_bias=True, two_types=rng.random() < 0.7, max_ops=12, neq=True)
             corpus.append({"kind": "ftn", "script": g.script()})
     return corpus
 
